@@ -29,9 +29,6 @@ from navis.transforms.templates import registry
 import harness.c16 as B
 from harness import c16_image as IMG
 
-SIG_SYMM23 = ('symmetrize_brain / (2, 3)-shaped template bounding box / midplane computed from bbox[0] = (lo_x, lo_y) '
-              'instead of (lo_x, hi_x)')
-
 
 # ---------------------------------------------------------------------------------------------
 # a registry made of a chain of exact registrations
@@ -493,49 +490,9 @@ def run_symmx(ctx, case):
             ctx.oracle(False, f'symmetrize_brain raises {type(e).__name__}: {str(e)[:160]} on a valid {spec["type"]} ({mode}, bbox {form})', case)
             return
     g0 = [['M', 'x', sizeA]]
-    if form != '2x3':
-        B.check_symm(ctx, case, x, before, out, lo_x, hi_x, g, g0)
-        return
-    # (2, 3) layout: the code reads bbox[0] = (lo_x, lo_y) as the x-extent.  Model AS WRITTEN for the tie; the property
-    # (midplane of the template) is judged against the real extent.
-    written_lo, written_hi = t['lo'][0], t['lo'][1]
-
-    class Probe:
-        def __init__(self):
-            self.bad = []
-            self.hist = {}
-
-        def ask(self, line):
-            return ctx.ask(line)
-
-        def count(self, *a, **k):
-            pass
-
-        def corr(self, a, b, what, case, signature=None):
-            if a != b:
-                self.bad.append(what)
-            return a == b
-
-        def oracle(self, ok, what, case, signature=None, **k):
-            if not ok:
-                self.bad.append(what)
-            return ok
-    true_p, written_p = Probe(), Probe()
-    # (checking a Dotprops reads `.vect`, which regenerates `_vect` / `_alpha` in place: probe copies)
-    fresh = (lambda: out.copy()) if isinstance(out, (navis.BaseNeuron, navis.NeuronList)) else (lambda: out)
-    B.check_symm(true_p, case, x, before, fresh(), lo_x, hi_x, g, g0)
-    if not true_p.bad:
-        ctx.oracle(True, '', case)
-        ctx.count('symm_2x3', 'agrees with the true midplane (no row between the two planes)')
-        return
-    B.check_symm(written_p, case, x, before, fresh(), written_lo, written_hi, g, g0)
-    as_written = not written_p.bad
-    ctx.count('symm_2x3', 'wrong midplane' if as_written else 'other failure')
-    ctx.oracle(False, f'symmetrize_brain with a (2, 3)-shaped bounding box: rows are symmetrized about x = '
-                      f'{written_lo + (written_hi - written_lo) / 2} (from bbox[0] = (lo_x, lo_y)) instead of the template midplane x = '
-                      f'{lo_x + (hi_x - lo_x) / 2}: ' + true_p.bad[0][:160]
-                      + ('' if as_written else ' — and not the as-written plane either: ' + written_p.bad[0][:200]), case,
-               signature=SIG_SYMM23 if as_written else None)
+    # every layout (3x2, flat, tuple, 2x3) is judged against the template's real midplane; the (2, 3) layout used to be
+    # read as (lo_x, lo_y) - fixed in navis (a732b7e), so a regression is a VIOLATION
+    B.check_symm(ctx, case, x, before, out, lo_x, hi_x, g, g0)
 
 
 # ---------------------------------------------------------------------------------------------
